@@ -4,6 +4,7 @@ import z3
 from .interp import Violation, Infeasible, Inconclusive
 from .values import Int, UNIT, Adt, Ptr
 from .models.core import Atom
+from .models.maddr import peer_mh
 
 
 def _name(it, p):
@@ -52,8 +53,15 @@ def nd_multiaddr(it, a, ty, callee):
 
 def nd_peer_id(it, a, ty, callee):
     if it.concrete is not None:
-        return Adt('peer_id::PeerId', 0, [Atom('multihash', _next_concrete(it) & 0xff)])
-    return Adt('peer_id::PeerId', 0, [Atom('multihash', it.sym(_name(it, a[1]), 8))])
+        return Adt('peer_id::PeerId', 0, [peer_mh(_next_concrete(it) & 0xff)])
+    return Adt('peer_id::PeerId', 0, [peer_mh(Int(it.sym(_name(it, a[1]), 8), 8))])
+
+
+def nd_peer_id_fixed(it, a, ty, callee):
+    v = a[1]
+    if not v.conc:
+        raise Inconclusive('peer_id_fixed needs a concrete argument')
+    return Adt('peer_id::PeerId', 0, [peer_mh(v.v)])
 
 
 def nd_cid(it, a, ty, callee):
@@ -104,6 +112,7 @@ def install(it):
     A(r'(?:\w+::)*verif_rt::Nondet::multiaddr', nd_multiaddr)
     A(r'(?:\w+::)*verif_rt::Nondet::peer_id', nd_peer_id)
     A(r'(?:\w+::)*verif_rt::Nondet::cid', nd_cid)
+    A(r'(?:\w+::)*verif_rt::Nondet::peer_id_fixed', nd_peer_id_fixed)
     A(r'(?:\w+::)*verif_rt::assume', rt_assume)
     A(r'(?:\w+::)*verif_rt::check', rt_check)
     A(r'(?:\w+::)*verif_rt::cover', rt_cover)
